@@ -73,7 +73,7 @@ class ParameterSection(Micheline, prim='parameter', args_len=1):
             assert isinstance(flat_args, dict), f'expected dict of named entrypoints'
             for name, arg in flat_args.items():
                 entrypoints[name] = arg.get_anon_type()
-        entrypoints[cls.root_name] = root_type
+        entrypoints.setdefault(cls.root_name, root_type)
         return entrypoints
 
     @classmethod
@@ -85,13 +85,14 @@ class ParameterSection(Micheline, prim='parameter', args_len=1):
             'value',
         }, f'expected {{entrypoint, value}}, got {parameters}'
         entrypoint = parameters['entrypoint']
-        if entrypoint == cls.root_name:
+        root_type = cls.args[0]
+        key_to_path = root_type.get_type_layout(entrypoints=True)[1] if issubclass(root_type, OrType) else {}
+        # a branch annotated with the name the root would get (`%root` next to a `%default` branch) owns that name
+        if entrypoint == cls.root_name and entrypoint not in key_to_path:  # type: ignore
             res = cls.from_micheline_value(parameters['value'])
             return cast(ParameterSection, res)
         else:
-            root_type = cls.args[0]
             assert issubclass(root_type, OrType), f'expected `{cls.root_name}`, got `{entrypoint}`'
-            _, key_to_path, _ = root_type.get_type_layout(entrypoints=True)
             assert entrypoint in key_to_path, f'unexpected entrypoint `{entrypoint}`'  # type: ignore
             val_expr = wrap_parameters(parameters['value'], key_to_path[entrypoint])  # type: ignore
             item = root_type.from_micheline_value(val_expr)
@@ -133,12 +134,12 @@ class ParameterSection(Micheline, prim='parameter', args_len=1):
                 raise TypeError(f'expected dict with a single key, got {type(py_obj).__name__} `{py_obj}`')
             entrypoint = next(iter(py_obj))
 
-        if entrypoint == cls.root_name:
+        key_to_path = cls.args[0].get_type_layout(infer_names=True, entrypoints=True)[1] if issubclass(cls.args[0], OrType) else {}
+        if entrypoint == cls.root_name and entrypoint not in key_to_path:  # type: ignore
             item = cls.args[0].from_python_object(py_obj[entrypoint])
         else:
             if not issubclass(cls.args[0], OrType):
                 raise TypeError(f'Unexpected entrypoint `{entrypoint}`: parameter is not of sum type')
-            _, key_to_path, _ = cls.args[0].get_type_layout(infer_names=True, entrypoints=True)
             if not key_to_path:
                 raise TypeError('sum type has to be named (in the scope of PyTezos)')
             item = cls.args[0].from_python_object(wrap_or(py_obj[entrypoint], key_to_path[entrypoint]))
